@@ -125,6 +125,13 @@ func (r *Registry) PushManifest(ctx context.Context, repoName string, tag string
 			}
 		}
 	}
+	if r.cfg.ImmutableTags {
+		if b := repo.manifests[dig]; b != nil && b.mediaType != mediaType {
+			// Storing the same content under another media type would
+			// change how existing (possibly tagged) content is interpreted.
+			return ociregistry.Descriptor{}, fmt.Errorf("%w: mismatched media type", ociregistry.ErrDenied)
+		}
+	}
 	// make a copy of the data to avoid potential corruption.
 	data = append([]byte(nil), data...)
 	if err := CheckDescriptor(desc, data); err != nil {
